@@ -170,11 +170,17 @@ func (m *TargetsDiscovery) Run(ctx context.Context, sdChan <-chan map[string][]*
 func (m *TargetsDiscovery) translateTargets(targets map[string][]*targetgroup.Group) map[string][]*SDTargets {
 	actives := map[string][]*SDTargets{}
 	drops := map[string][]*SDTargets{}
+
+	// ApplyConfig replaces m.config as a whole under targetsLock
+	m.targetsLock.Lock()
+	config := m.config
+	m.targetsLock.Unlock()
+
 	for job, tsg := range targets {
 		allActive := make([]*SDTargets, 0)
 		allDrop := make([]*SDTargets, 0)
 
-		cfg := m.config[job]
+		cfg := config[job]
 		if cfg == nil {
 			m.log.Warnf("can not found job %m", job)
 			continue
@@ -200,6 +206,14 @@ func (m *TargetsDiscovery) translateTargets(targets map[string][]*targetgroup.Gr
 
 	m.targetsLock.Lock()
 	defer m.targetsLock.Unlock()
+
+	// a reload may have removed a job while its targets were translated: it must not come back
+	for job := range actives {
+		if _, exist := m.config[job]; !exist {
+			delete(actives, job)
+			delete(drops, job)
+		}
+	}
 
 	for job, targets := range actives {
 		m.activeTargets[job] = targets
